@@ -18,7 +18,7 @@ import (
 )
 
 func init() {
-	register(&Prop{ID: "C20", Witness: true, N: 30000, Quick: 1200, Workers: 8,
+	register(&Prop{ID: "C20", Witness: true, N: 30000, Quick: 600, Workers: 8,
 		Assume: []string{"cache and visited-table sizes are read through DFACache.MemoryUsage()/Size(), DFA.CacheStats(), BacktrackerState.Visited and the verif-tagged hooks meta.Engine.VerifStateSizes / lazy.DFACache.VerifCapacity (state parked in the engine between searches)", "heap held = runtime.MemStats.HeapAlloc after two runtime.GC() calls in a worker that runs one case at a time (sync.Pool contents are dropped by GC, the engine's single GC-proof slot is not); tolerance 96 KiB + the configured cache capacities", "allocations per call = testing.AllocsPerRun(30, call) after a warm-up call (integer average, GOMAXPROCS(1))"},
 		Rule:   "case = one pattern G(D,i). (a) direct lazy.DFA (forward and reverse NFA) under 4 index-chosen capacity/clear settings from {200,800,4Ki,64Ki} × MaxCacheClears {0,1,5,1000}: after EVERY one of ~60 searches over the case's haystacks and cache-churning random walks, MemoryUsage <= capacity + largest state. (b) direct BoundedBacktracker with one reused state over growing haystacks up to beyond CanHandle: len(Visited) <= MaxVisitedSize after every call. (c) Regex under default and small-cache configurations: after every 50 of 600 searches (shuffled APIs × haystacks) the parked state is read through the hook: every cache <= capacity + one state, visited <= limit; HeapAlloc after the warm-up (two sweeps over all API × haystack pairs) and after 600 further calls must differ by less than the tolerance. (d) Match, MatchString, Engine.IsMatch, Engine.FindIndices, Count, AllIndex, AppendAllIndex(buffer with capacity) must report 0 allocations per call on every haystack of the case; one evaluation = one size reading or one AllocsPerRun measurement; distinct_nontrivial = distinct (pattern, configuration, reading) where a cache held at least 2 states or a call was measured on a matching haystack",
 		Run:    runC20})
